@@ -240,7 +240,9 @@ def check_C15(run, replay=None):
         for c, v in zip(s, flat):
             dist[classify_c15(c)] += 1; verd[v] += 1
             key = (c["k"], c["api"], c.get("exp", 0), json.dumps(c.get("result", c.get("status")), sort_keys=True))
-            run.note_case(key, nontrivial=True)
+            # the out-of-range part of the sweep (status < 100 or >= 600) exercises one model branch 130k
+            # times: it is evaluated and compared, but only its edges are counted as distinct non-trivial cases
+            run.note_case(key, nontrivial=(c["k"] != "sweep" or 100 <= c["status"] < 600 or c["status"] in (0, 1, 99, 600, 999, 1000, 65535)))
             run.cov["traces_validated_against_impl"] += 1
             if v == 1: bad_model.append(c)
             elif v == 2: bad_ok.append(c)
@@ -265,8 +267,9 @@ def check_C15(run, replay=None):
                        "status (known codes, edges of every class, random u16) x header lists (repeated and mixed-case names, content types "
                        "with odd charsets, every fifth case from the malformed stream: non-ASCII / control bytes / empty names) x bodies "
                        "(empty, JSON, UTF-8, invalid UTF-8, BOMs, legacy encodings, kilobytes) x the five shell error variants x "
-                       "{bytes,string,json} x both APIs; a case is counted once per distinct (api, expectation, shell result); all are non-trivial "
-                       "(each resolves one real HTTP effect and reads the single event)")
+                       "{bytes,string,json} x both APIs; a case is counted once per distinct (api, expectation, shell result); every generated case is non-trivial "
+                       "(it resolves one real HTTP effect and reads the single event); of the sweep only statuses 100..599 and the edges 0,1,99,600,999,1000,65535 "
+                       "are counted as non-trivial, the remaining out-of-range statuses all take the same 'unsupported status' branch")
     run.cov["samples"] = [slim(c) for c in (cases[:2] + cases[-3:])]
     run.extra["distribution"] = {"by_class_and_outcome": dict(dist), "verdicts": {str(k): v for k, v in verd.items()},
                                  "corpus_cases": len(corpus)}
